@@ -35,7 +35,7 @@ REF = {
 }
 POOL: List[str] = []          # bare names (no namespace)
 NS_KINDS = [(), ("geo",), ("other",), ("geo", "x"), ("Geo",)]
-ARG_KINDS = 5
+ARG_KINDS = 7
 
 
 EXACT: List[str] = []
@@ -66,10 +66,14 @@ def mk_arg(kind: int, j: int) -> Any:
         return ast.String("s" + str(j))
     if k == 3:
         return ast.Call(ast.Identifier("now"), [])
-    return ast.BinOp(ast.Add(), ast.Identifier("a"), ast.Integer(str(j)))
+    if k == 4:
+        return ast.BinOp(ast.Add(), ast.Identifier("a"), ast.Integer(str(j)))
+    if k == 5:     # a list literal is ONE argument, however many items it has
+        return ast.List([ast.Integer(str(j)), ast.Integer("2")])
+    return ast.List([ast.String("s" + str(j))])
 
 
-ARG_TEXT = ["{j}", "f{j}", "'s{j}'", "now()", "a add {j}"]
+ARG_TEXT = ["{j}", "f{j}", "'s{j}'", "now()", "a add {j}", "({j}, 2)", "('s{j}',)"]
 
 
 def expected(full: str, ns: tuple, n: int) -> Tuple[str, Any]:
